@@ -1316,6 +1316,11 @@ class LibMixin:
                 o.d[k] = v
                 return v
             self.throw_key(k, node)
+        if isinstance(o, OpaqueV) and o.what == "sys.modules" and isinstance(k, str):
+            try:
+                return self.module(k)  # an imported module of the analysed packages
+            except (Raised, Limit):
+                self.limit(f"sys.modules[{k!r}]", node)
         if isinstance(o, (LibClass, LibFn, OpaqueV)) or (isinstance(o, ClassV) and not isinstance(k, Sym)):
             if isinstance(o, ClassV) and "enum" in o.flags:
                 if isinstance(k, str) and k in o.flags["enum"]:
@@ -1554,6 +1559,11 @@ class LibMixin:
             return item in container
         elif isinstance(container, ClassV) and "enum" in container.flags:
             return item in container.flags["enum"].values()
+        elif isinstance(container, InstV) and container.cls.flags.get("namedtuple") and self.class_lookup(container.cls, "__contains__") is None:
+            seq = tuple(container.attrs[n] for n in container.cls.flags["namedtuple"])  # a NamedTuple is a tuple: membership among its fields
+        elif isinstance(container, InstV) and self.class_lookup(container.cls, "__contains__") is not None:
+            r = self.call(self.class_lookup(container.cls, "__contains__"), [container, item], {}, run, node)
+            return r if isinstance(r, Sym) else self.truth(r, run, node)
         else:
             self.limit(f"`in` on {container!r}", node)
         for x in seq:
